@@ -1,6 +1,7 @@
 package c04
 
 import (
+	"encoding/json"
 	"fmt"
 	"math/rand/v2"
 	"sort"
@@ -169,7 +170,26 @@ func (g *reqGen) item(e elem, pos int, kind, class string, src source) placement
 		class = "plain" // a header/cookie value of blanks only does not survive HTTP parsing
 	}
 	v := g.m.mint(kind, class, g.sub(), user, pass)
-	return placement{Slot: src.slot(), Scheme: src.Scheme, Value: v, Kind: kind, Class: class, For: pos}
+	p := placement{Slot: src.slot(), Scheme: src.Scheme, Value: v, Kind: kind, Class: class, For: pos}
+	if src.Kind == "header" && src.Scheme != "" && g.rng.IntN(4) == 0 {
+		// more than one blank between scheme and credentials
+		p.Sep = []string{"  ", "   "}[g.rng.IntN(2)]
+	}
+	return p
+}
+
+// dress decides how the body credentials of a request (if any) are transported: form or JSON, and the spelling
+// of the Content-Type header.
+func (g *reqGen) dress(r *lreq) {
+	if !r.hasBodyItems() {
+		return
+	}
+	if g.rng.IntN(3) == 0 {
+		r.BodyEnc = bodyEncodings[1+g.rng.IntN(len(bodyEncodings)-1)]
+	}
+	if g.rng.IntN(3) != 0 {
+		r.CT = contentTypes[1+g.rng.IntN(len(contentTypes)-1)].Name
+	}
 }
 
 func (g *reqGen) pickSource(e elem) source {
@@ -226,6 +246,7 @@ func (g *reqGen) requests(c chain, n int) []lreq {
 	var out []lreq
 	seen := map[string]bool{}
 	add := func(r lreq) {
+		g.dress(&r)
 		k := r.shapeKey()
 		if seen[k] {
 			return
@@ -254,6 +275,13 @@ func (g *reqGen) requests(c chain, n int) []lreq {
 		e := c.Elems[p]
 		k := nativeKind[e.proto().Type]
 		add(lreq{Recipe: "single-invalid", Items: []placement{g.item(e, p, k, g.rejectClass(k), g.pickSource(e))}})
+	}
+	// authenticators that discover their endpoints per token issuer: a correctly signed token whose issuer makes the
+	// discovery url unusable (found, cannot be validated), at any of the sources
+	for _, p := range ps {
+		if e := c.Elems[p]; e.proto().Meta {
+			add(lreq{Recipe: "single-invalid", Items: []placement{g.item(e, p, "jwt", "issbreaksurl", g.pickSource(e))}})
+		}
 	}
 	for tries := 0; len(out) < n && tries < n*20; tries++ {
 		p := ps[g.rng.IntN(len(ps))]
@@ -313,7 +341,9 @@ type wire struct {
 	Method  string            `json:"method"`
 	Target  string            `json:"target"`
 	Headers map[string]string `json:"headers"`
-	Body    string            `json:"body,omitempty"`
+	// ContentType: the Content-Type header lines of a request with a body (more than one: the header is sent twice)
+	ContentType []string `json:"content_type,omitempty"`
+	Body        string   `json:"body,omitempty"`
 	// Chunked: the body is sent with Transfer-Encoding: chunked (no Content-Length) - the same credentials, another framing
 	Chunked bool     `json:"chunked_body,omitempty"`
 	Noise   []string `json:"noise,omitempty"`
@@ -335,6 +365,7 @@ func queryEscape(s string) string {
 func (r lreq) wire(path string) wire {
 	w := wire{Method: "GET", Target: path, Headers: map[string]string{}}
 	var q, body, cookies []string
+	jsonBody := map[string]string{}
 	items := append([]placement{}, r.Items...)
 	sort.SliceStable(items, func(i, j int) bool { return items[i].Slot < items[j].Slot })
 	for _, it := range items {
@@ -343,7 +374,7 @@ func (r lreq) wire(path string) wire {
 		case 'H':
 			v := it.Value
 			if it.Scheme != "" {
-				v = it.Scheme + " " + it.Value
+				v = it.Scheme + it.sep() + it.Value
 			}
 			w.Headers[name] = v
 		case 'C':
@@ -352,6 +383,7 @@ func (r lreq) wire(path string) wire {
 			q = append(q, name+"="+queryEscape(it.Value))
 		case 'B':
 			body = append(body, name+"="+queryEscape(it.Value))
+			jsonBody[name] = it.Value
 		}
 	}
 	// noise that carries no credentials: it must not change what an authenticator finds (seeded by the request itself)
@@ -385,8 +417,12 @@ func (r lreq) wire(path string) wire {
 	}
 	if len(body) > 0 {
 		w.Method = "POST"
-		w.Headers["Content-Type"] = "application/x-www-form-urlencoded"
+		w.ContentType = ctByName(r.CT).lines(mediaTypes[r.BodyEnc])
 		w.Body = strings.Join(body, "&")
+		if r.BodyEnc != "" {
+			b, _ := json.Marshal(jsonBody)
+			w.Body = string(b)
+		}
 		sum := 0
 		for i := 0; i < len(w.Body); i++ {
 			sum += int(w.Body[i])
